@@ -18,8 +18,9 @@ ASSUMPTIONS = [
     "DOO's default delta(h) is recomputed from the boxes of the cells listed at depth h (first coordinate, as documented)",
     "ties: any maximiser accepted; b-values compared to rel. 1e-9",
 ]
-FLOOR = {"expansions_judged": {"quick": 10000, "thorough": 200000}, "handouts_checked": {"quick": 30000, "thorough": 600000},
-         "runs_where_the_cap_was_reached": {"quick": 40, "thorough": 800}}
+FLOOR = {"expansions_judged": {"quick": 10000, "thorough": 80000},
+         "handouts_checked": {"quick": 30000, "thorough": 240000},
+         "runs_where_the_cap_was_reached": {"quick": 40, "thorough": 320}}
 WALL = {"quick": 1200, "thorough": 4 * 3600}
 ALG = ["SOO", "StoSOO", "DOO", "DOO_delta", "SOO", "StoSOO"]
 
